@@ -278,6 +278,18 @@ func (bkt *Bucket) checkForDump(dumpthreshold int) bool {
 // called by hstore, data already flushed
 func (bkt *Bucket) close() {
 	logger.Infof("closing bucket %s", bkt.Home)
+	// the flush of a just-rotated data file is spawned asynchronously by
+	// AppendRecord and may not have run yet: write it out here, so that close
+	// returns only after every acknowledged record has been handed to the file
+	for i := 0; i < bkt.datas.newHead; i++ {
+		ck := &bkt.datas.chunks[i]
+		ck.Lock()
+		n := len(ck.wbuf)
+		ck.Unlock()
+		if n > 0 {
+			bkt.datas.flush(i, true)
+		}
+	}
 	bkt.datas.flush(-1, true)
 	datas, _ := filepath.Glob(fmt.Sprintf("%s/*.data", bkt.Home))
 	if len(datas) == 0 {
